@@ -689,11 +689,28 @@ func (r *Roles) resolveFunctions() {
 		}
 		// T_errfn / T_req from the interface method's parameters
 		sig := dm.Type().(*types.Signature)
-		for i := 0; i < sig.Params().Len(); i++ {
-			if n, ok := sig.Params().At(i).Type().(*types.Named); ok && n.Obj().Pkg() == p.Root.Pkg {
+		isErrFn := func(t types.Type) *types.Named {
+			if n, ok := t.(*types.Named); ok && n.Obj().Pkg() == p.Root.Pkg {
 				if s, ok := n.Underlying().(*types.Signature); ok && s.Params().Len() >= 3 {
 					if _, ok := s.Params().At(0).Type().Underlying().(*types.Signature); ok {
-						r.TErrFn = n
+						return n
+					}
+				}
+			}
+			return nil
+		}
+		for i := 0; i < sig.Params().Len(); i++ {
+			pt := sig.Params().At(i).Type()
+			if n := isErrFn(pt); n != nil {
+				r.TErrFn = n
+			}
+			// the hooks grouped in a parameter struct (callEnv{w, rpcError, done, chOut})
+			if n, ok := pt.(*types.Named); ok && n.Obj().Pkg() == p.Root.Pkg && r.TErrFn == nil {
+				if st, ok := n.Underlying().(*types.Struct); ok {
+					for j := 0; j < st.NumFields(); j++ {
+						if en := isErrFn(st.Field(j).Type()); en != nil {
+							r.TErrFn = en
+						}
 					}
 				}
 			}
